@@ -371,3 +371,48 @@ def gen_dispatch():
     open(os.path.join(GEN, 'Dispatch.v'), 'w').write('\n'.join(lines) + '\n')
     ok, log = compile_gen('Dispatch.v')
     return ('dispatch: generated method table + dispatch_respects_method', ok, 'ok' if ok else log[-600:]), table
+
+
+# ---------------------------------------------------------------- unit: movement lists of free_energy_graph (C10)
+def gen_moves():
+    os.makedirs(GEN, exist_ok=True)
+    try:
+        f = _find_func(_parse('path.py'), None, 'free_energy_graph')
+        lists = {}
+        for st in ast.walk(f):
+            if isinstance(st, ast.Assign) and isinstance(st.targets[0], ast.Name) and st.targets[0].id in ('movements', 'diagonal_movements'):
+                v = st.value
+                if isinstance(v, ast.Call) and getattr(v.func, 'attr', '') == 'array' and isinstance(v.args[0], ast.List):
+                    tl = []
+                    for e in v.args[0].elts:
+                        if not (isinstance(e, ast.Tuple) and len(e.elts) == 3):
+                            raise Unsupported('move is not a 3-tuple')
+                        tl.append(tuple(ast.literal_eval(x) for x in e.elts))
+                    lists.setdefault(st.targets[0].id, tl)
+                elif isinstance(v, ast.Call) and getattr(v.func, 'attr', '') == 'vstack':
+                    pass
+                else:
+                    raise Unsupported('movements assignment')
+        if set(lists) != {'movements', 'diagonal_movements'}:
+            raise Unsupported(f'movement lists found: {sorted(lists)}')
+    except Unsupported as e:
+        return ('moves', False, f'translator: unsupported {e}'), None
+    fm = lambda l: '[' + '; '.join('(%d, %d, %d)' % t for t in l) + ']'
+    lines = ['(* GENERATED from /repo/src/gemdat/path.py (free_energy_graph) on every run -- do not edit *)',
+             'From GV Require Import Base.Prelude.',
+             f'Definition gen_face_moves : list (Z * Z * Z) := {fm(lists["movements"])}.',
+             f'Definition gen_diag_moves : list (Z * Z * Z) := {fm(lists["diagonal_movements"])}.',
+             'Definition gen_moves (diagonal : bool) : list (Z * Z * Z) := if diagonal then gen_face_moves ++ gen_diag_moves else gen_face_moves.',
+             '(* every move is a unit step to a face, edge or corner neighbour, and the list is closed under negation *)',
+             'Definition unit_move (m : Z * Z * Z) : bool := let \'(a, b, c) := m in',
+             '  (Z.abs a <=? 1) && (Z.abs b <=? 1) && (Z.abs c <=? 1) && negb ((a =? 0) && (b =? 0) && (c =? 0)).',
+             'Definition has (l : list (Z * Z * Z)) (m : Z * Z * Z) : bool :=',
+             '  existsb (fun x => let \'(a, b, c) := x in let \'(d, e, f) := m in (a =? d) && (b =? e) && (c =? f)) l.',
+             'Theorem moves_are_neighbour_steps : forallb unit_move (gen_moves true) = true /\\',
+             '  forallb (fun m => let \'(a, b, c) := m in has (gen_moves true) (- a, - b, - c)) (gen_moves true) = true /\\',
+             '  forallb (fun m => let \'(a, b, c) := m in (Z.abs a + Z.abs b + Z.abs c =? 1)) (gen_moves false) = true /\\',
+             '  length (gen_moves false) = 6%nat.',
+             'Proof. vm_compute. repeat split; reflexivity. Qed.']
+    open(os.path.join(GEN, 'MovesDef.v'), 'w').write('\n'.join(lines) + '\n')
+    ok, log = compile_gen('MovesDef.v')
+    return ('moves: generated movement lists + moves_are_neighbour_steps', ok, 'ok' if ok else log[-600:]), lists
